@@ -246,7 +246,8 @@ def _texts_of_class(rm, pkg, cls, regs):
     for s in regs[cls]:
         if s.cls == cls and s.value_text is not None and s.kind in ("derived",):
             out.append((f"derived `{s.name}`", s.value_text, s.reg["file"], s.reg["line"]))
-    meths = [m for m in ci.methods if m == "rateexpr" or m.startswith("rate_") or m == "_rate_surface"]
+    from ..ratemodel import surface_helper
+    meths = [m for m in ci.methods if m == "rateexpr" or m.startswith("rate_") or m == surface_helper(pkg)]
     if cls == "KROMEReaction":
         meths = []
     for m in meths:
